@@ -249,7 +249,7 @@ PROPS = {
               'exponent x 14 boundary + 18 random mantissas (x4 quick, x40 thorough); judged on finite normal values; (3) LE/BE twin files of 65536 values for '
               '16/24/32-bit PCM, float, double; (4) IMA (WAV, W64, AIFF layouts) and MS ADPCM: files with 6 blocks (last one partial in half of the cases) whose block '
               'bytes are overwritten with 6 random/adversarial patterns and extreme header fields, 1-2 channels, every block size the writer uses (256..2048), decoded by '
-              'sf_readf_short and compared with reference decoders. case = one block of inputs; distinct = hash(case parameters)'),
+              'sf_readf_short and compared with reference decoders. case = one block of inputs; distinct = hash(case parameters) (5) G.721 / G.723-24 / G.723-40: 800 / 6000 adversarial code streams (runs of equal-sign codes followed by alternating signs, random codes) decoded and extreme signals encoded per format while a read-only hook in update() observes the state limits of ITU-T G.726 (|a2| <= 0.75, |a1| <= 15/16 - a2, 544 <= yu <= 5120)'),
         assumptions=COMMON_ASSUME + ['float/double entries of the G.711 encoders round to the codec input grid: exact equality on the grid, one grid step of slack off it',
                                      'mu-law has two zero codes: identity of encode(decode(c)) is asserted up to codes that decode to the same value',
                                      'ADPCM conformance is asserted only for blocks whose header fields are inside the definitions (IMA step index <= 88, MS bPredictor <= 6); other blocks are decoded for memory safety only; MS iDelta follows the 16-bit arithmetic of the Microsoft description',
